@@ -5,7 +5,8 @@
    Labels: LC coarse (Selected 1), LF fine (Unselected 0), LN isolated (NoNeighbors -2), LU unassigned (-1). *)
 From Coq Require Import List Arith Lia Bool.
 Import ListNotations.
-From Raptor Require Import Amg.Split Amg.SplitProofs Amg.SplitMisProofs Amg.SplitRsProofs Amg.SplitRsTotal2.
+From Raptor Require Import Amg.Split Amg.SplitProofs Amg.SplitMisProofs Amg.SplitRsProofs Amg.SplitRsTotal2
+  Amg.SplitPar Amg.SplitParProofs.
 
 (* The checker run on every gathered output of the library (all routines, sequential and distributed)
    decides the property's clauses. *)
@@ -113,9 +114,84 @@ Example C13_mis_nonvacuous :
   split_pmis 0 1 Nat.add Nat.ltb [[0; 1]; [1; 0; 2]; [2; 1]] [0; 0; 0] 3 = Some [LF; LC; LF].
 Proof. split; reflexivity. Qed.
 
+(* Distributed Ruge-Stuben (split_rs on a ParCSRMatrix = sequential RS on each rank's diagonal block after
+   set_initial_states), for every block of every partition: points left unassigned by set_initial_states end
+   coarse or fine, NoNeighbors points keep their label, a fine point has a coarse neighbour inside the block.
+   (The ">= 1 fine" clause is false for this routine when every edge crosses ranks: known finding.) *)
+Theorem C13_par_rs_block (S : graph) (b : nat * nat) (st0 : list label) (second : bool) :
+  rows_nodup S -> fst b + snd b <= length S -> length st0 = length S ->
+  (forall v, nth v st0 LU = LU \/ nth v st0 LU = LN) ->
+  let G := local_graph S b in
+  let init := firstn (snd b) (skipn (fst b) st0) in
+  let st := split_rs_gen G (Some init) second in
+  length st = snd b /\
+  forall i, i < snd b ->
+    (nth i init LU = LU -> nth i st LU = LC \/ nth i st LU = LF) /\
+    (nth i init LU = LN -> nth i st LU = LN) /\
+    (nth i st LU = LF -> exists c, In c (nth i (off_rows G) []) /\ nth c st LU = LC).
+Proof. apply par_rs_block. Qed.
+
+Example C13_par_rs_nonvacuous :
+  par_split_rs [[0; 1]; [0; 1; 2]; [1; 2]; [3]] [2; 2] = [LF; LC; LC; LN].
+Proof. reflexivity. Qed.
+
+(* Distributed PMIS, for EVERY contiguous partition (empty ranks included) and any caller-supplied weights:
+   the agreement invariant.  The model returns None as soon as a conditional exchange would select different
+   positions on the two sides (a truncated message or a hang in the library) or the fuel runs out; the theorem
+   says it returns Some: no exchange ever disagrees, n further passes suffice on every rank, every point is
+   coarse, fine or (exactly when set_initial_states said so) NoNeighbors, and every rank's final off_proc_states
+   equal the owners' labels.
+   PARTIAL with respect to the property: equality of these labels with the sequential split_pmis labels is not
+   proved here (it is false in general, see C13_par_pmis_equals_seq_refuted, and holds in every tested case
+   without a strong edge into an isolated vertex: differential check in props/C13.py, exhaustive on <= 4
+   vertices in the thorough tier). *)
+Section C13_PAR.
+Variable F : Type.
+Variables (zero one : F) (add : F -> F -> F).
+Variable ltb : F -> F -> bool.
+Hypothesis ltb_trans : forall a b c, ltb a b = true -> ltb b c = true -> ltb a c = true.
+Hypothesis ltb_irrefl : forall a, ltb a a = false.
+Hypothesis lt01 : ltb zero one = true.
+
+Theorem C13_par_pmis_agreement_partial (S : graph) (part : list nat) (keys : list F) :
+  graph_wfb S = true -> list_sum part = length S -> length keys = length S ->
+  let bs := block_starts 0 part in
+  let st0 := initial_states S bs in
+  exists st,
+    par_split_pmis zero one add ltb S part keys (length S) =
+      Some (map (fun b => map (fun g => nth g st LU) (colmap (off_rows S) b)) bs, st) /\
+    length st = length S /\
+    forall v, v < length S ->
+      (nth v st0 LU = LU /\ (nth v st LU = LC \/ nth v st LU = LF)) \/ (nth v st0 LU = LN /\ nth v st LU = LN).
+Proof. apply par_split_pmis_agreement; assumption. Qed.
+End C13_PAR.
+
+Example C13_par_pmis_nonvacuous :
+  par_split_pmis 0 1024 Nat.add Nat.ltb [[0; 1]; [0; 1; 2]; [1; 2]] [1; 0; 2] [300; 100; 200] 3
+  = Some ([[LC]; []; [LF]], [LF; LC; LF]).
+Proof. vm_compute. reflexivity. Qed.
+
+(* The literal clause "distributed PMIS labels of non-isolated points = sequential labels" is false of the
+   faithful models (and of the library: known finding KF-C13-pmis-dep-on-isolated): vertex 1 depends on the
+   isolated vertex 0; sequentially 0 becomes coarse and 1 fine, in the distributed routine 0 is NoNeighbors and 1
+   becomes coarse - already on one rank.  Weights are k/1024 written as integers with one = 1024. *)
+Lemma C13_par_pmis_equals_seq_refuted :
+  exists (S : graph) (part : list nat) (keys : list nat) (v : nat) views st_par st_seq,
+    graph_wfb S = true /\ list_sum part = length S /\
+    nth v (off_rows S) [] <> [] /\
+    par_split_pmis 0 1024 Nat.add Nat.ltb S part keys (length S) = Some (views, st_par) /\
+    split_pmis 0 1024 Nat.add Nat.ltb S keys (length S) = Some st_seq /\
+    nth v st_par LU <> nth v st_seq LU.
+Proof.
+  exists [[0]; [1; 0]; [2; 1]], [3], [300; 100; 200], 1, [[]], [LN; LC; LF], [LC; LF; LF].
+  repeat split; try reflexivity; vm_compute; discriminate.
+Qed.
+
 Print Assumptions C13_split_ok_sound.
 Print Assumptions C13_rs_fine_has_coarse.
 Print Assumptions C13_rs_total.
 Print Assumptions C13_rs_total_and_usable.
 Print Assumptions C13_cljp_terminates_total.
 Print Assumptions C13_pmis_terminates_total.
+Print Assumptions C13_par_rs_block.
+Print Assumptions C13_par_pmis_agreement_partial.
